@@ -26,7 +26,7 @@ def Emitter.obs (e : Emitter) : Emitter :=
                      sec := none, off := 0 }
 
 def Holder.obs (h : Holder) : Holder :=
-  { h with logger := false, textCap := false, arenaAllocs := 0, arenaRetained := 0 }
+  { h with logger := false, textCap := false, arena := Arena.init 16384 0 }
 
 def World.obs (w : World) : World := { h := w.h.obs, es := w.es.map Emitter.obs }
 
